@@ -48,12 +48,12 @@ const (
 
 // nopHandler14 is a session handler without behaviour: the state changes that go through
 // SetActiveSessionHandler / SwitchSessionHandler need one per state.
-type nopHandler14 struct{}
+type nopHandler14 struct{ name string } // (not zero-size: two handlers must be two distinct pointers)
 
-func (nopHandler14) HandlePacket(*proto.PacketContext) {}
-func (nopHandler14) Disconnected()                     {}
-func (nopHandler14) Activated()                        {}
-func (nopHandler14) Deactivated()                      {}
+func (*nopHandler14) HandlePacket(*proto.PacketContext) {}
+func (*nopHandler14) Disconnected()                     {}
+func (*nopHandler14) Activated()                        {}
+func (*nopHandler14) Deactivated()                      {}
 
 // recConn14 records writes and never blocks.
 type recConn14 struct {
@@ -133,7 +133,7 @@ func new14x(e *dualrun.Env, startInConfig, backend bool) *h14 {
 		dir = proto.ClientBound
 	}
 	conn, _ := NewMinecraftConn(context.Background(), base, dir, time.Second, time.Second, -1, nil)
-	h := &h14{e: e, base: base, mc: conn.(*minecraftConn), backend: backend, hPlay: &nopHandler14{}, hConfig: &nopHandler14{}}
+	h := &h14{e: e, base: base, mc: conn.(*minecraftConn), backend: backend, hPlay: &nopHandler14{"play"}, hConfig: &nopHandler14{"config"}}
 	h.mc.SetProtocol(version.Minecraft_1_21_4.Protocol)
 	// one session handler per state, as every real connection has (SetActiveSessionHandler switches the
 	// state exactly like SetState(Play) did here before)
